@@ -5,7 +5,65 @@ import layout as L
 import model
 import reach
 import tir
+from tir import strip, declared
 from props import C08
+
+
+def _stream_writes(b):
+    import flow
+    wname = b["tir"]["params"][0].get("name")
+    return [c for g, c in flow.ordered_calls(b["tir"]["value"], lambda n: n.get("k") == "MethodCall" and n["method"].startswith("write_") and L.local_name(n["recv"]) == wname)], wname
+
+
+def header_ok(F, b):
+    """the first two writes are the file signature and raw_size(game) as a u32"""
+    ws, _ = _stream_writes(b)
+    if len(ws) < 2:
+        return False
+    sig = F.const_body("io::slippi::FILE_SIGNATURE")
+    sigbytes = F.bytes_of(sig["tir"]["value"]) if sig else None
+    a0 = strip(ws[0]["args"][0])
+    first = ws[0]["method"] == "write_all" and (a0.get("path") == "io::slippi::FILE_SIGNATURE" or (sigbytes is not None and F.bytes_of(a0) == sigbytes))
+    env = tir.LetEnv(b["tir"]["value"])
+    a1 = env.resolve(ws[1]["args"][0])
+    gname = b["tir"]["params"][1].get("name")
+    second = ws[1]["method"] == "write_u32" and a1.get("k") == "MethodCall" and a1["method"] == "raw_size" and "PayloadSizes" in (strip(a1["recv"]).get("ty") or "") and L.local_name(a1["args"][0]) == gname
+    return bool(first and second)
+
+
+def payloads_shape_ok(F, b):
+    """0x35, the byte 3n+1, then for each table entry its code (u8) and size (u16), n = number of entries"""
+    import linear
+    ws, wname = _stream_writes(b)
+    # the count byte
+    cnt = False
+    for w in ws:
+        if w["method"] == "write_u8":
+            try:
+                f = linear.lin(w["args"][0])
+            except linear.NonLinear:
+                continue
+            syms = [k for k, v in f.items() if k and v]
+            if len(syms) == 1 and f[syms[0]] == 3 and f.get("", 0) == 1 and syms[0].replace("&", "").endswith(".sizes.len()"):
+                cnt = True
+    loop = False
+    for n in tir.walk(b["tir"]["value"]):
+        if n.get("k") == "For":
+            src = strip(n["iter"])
+            while src.get("k") == "MethodCall" and src["method"] in ("iter", "into_iter") and not src.get("args"):
+                src = strip(src["recv"])
+            if not (tir.place(src) or "").endswith(".sizes"):
+                continue
+            p = n["pat"]
+            while p.get("k") == "Ref":
+                p = p["pat"]
+            if p.get("k") != "Tuple" or len(p["pats"]) != 2 or any(q.get("k") != "Bind" for q in p["pats"]):
+                continue
+            ids = [q["id"] for q in p["pats"]]
+            import flow
+            body_ws = [c for g, c in flow.ordered_calls(n["body"], lambda x: x.get("k") == "MethodCall" and x["method"].startswith("write_") and L.local_name(x["recv"]) == wname)]
+            loop = [w["method"] for w in body_ws] == ["write_u8", "write_u16"] and [strip(w["args"][0]).get("id") for w in body_ws] == ids
+    return cnt and loop
 
 
 def run(F, rep, tier):
@@ -22,7 +80,7 @@ def run(F, rep, tier):
     # the declared length written into the header is raw_size's value, computed before anything is written
     b = F.body("io::slippi::ser::write")
     txt = tir.pretty(b["tir"]["value"])
-    rep.ob("declared.header", "w.write_all(&io::slippi::FILE_SIGNATURE)?; w.write_u32(payload_sizes.raw_size(game))?" in txt, "io::slippi::ser::write", "header",
+    rep.ob("declared.header", header_ok(F, b), "io::slippi::ser::write", "header",
            "the header must be the file signature followed by raw_size(game) as a big-endian u32")
     calls = [x for x in tir.walk(b["tir"]["value"]) if x.get("k") == "MethodCall" and x["method"] == "write_u32"]
     rep.ob("declared.big-endian", len(calls) == 1 and L.endian_of(calls[0]) == "BigEndian", "io::slippi::ser::write", "endianness", "the raw length must be written big-endian")
@@ -31,7 +89,7 @@ def run(F, rep, tier):
     got = [tir.lit_int(e) for e in tir.strip(sig["tir"]["value"]).get("elems", [])] if sig else None
     rep.ob("declared.signature", got == spec["slp_signature"], "io::slippi::FILE_SIGNATURE", "bytes", "the .slp signature is %s, spec says %s" % (got, spec["slp_signature"]))
     # the payloads event itself: size byte = 3*n+1, one (u8 code, u16 size) triple per entry
-    ok = "w.write_u8(((payload_sizes.sizes.len() Mul 3) Add 1).try_into().unwrap())?" in txt and "for (event, size) in payload_sizes.sizes { w.write_u8(event)?; w.write_u16(size)? }" in txt
+    ok = payloads_shape_ok(F, b)
     rep.ob("payloads.shape", ok, "io::slippi::ser::write", "payloads", "the Event Payloads event must be 0x35, the byte 3n+1, then n (code, u16 size) triples")
     rp = F.body("io::slippi::de::parse_payloads")
     t2 = tir.pretty(rp["tir"]["value"])
